@@ -13,8 +13,8 @@ WOR_KINDS = ["alpha_fixed", "alpha_shrink", "alpha_optcomp", "bet_fixed", "bet_a
 IID_KINDS = ["alpha_fixed", "alpha_shrink", "alpha_optcomp", "bet_fixed", "bet_agrapa", "km", "kw", "sprt"]
 
 
-def min_p(cfg, xs):
-    o = nnm.run_impl(cfg, list(xs))
+def min_p(cfg, xs, obj=None):
+    o = nnm.run_impl(cfg, list(xs), obj)
     if o["exc"]:
         return None
     vals = [v for v in o["hist"] + [o["p"]]]
@@ -61,9 +61,29 @@ def gen_null_pop(rng, cfg, N):
     return [F(0)] * N
 
 
+def reused_instance(rng, cfg):
+    """An instance that was built and used with ANOTHER configuration of the same kind and then re-parametrised in
+    place (as Audit.py does with `asn.test.u = u`), or None for a fresh instance per call."""
+    if rng.random() < 0.7:
+        return None
+    import warnings
+    import numpy as np
+    cfg0 = nnm.gen_cfg(rng, kind=cfg["kind"], finite=cfg["N"] is not None)
+    try:
+        with warnings.catch_warnings():
+            warnings.simplefilter("ignore")
+            obj = nnm.build(cfg0)
+            obj.test(np.array([float(v) for v in nnm.gen_xs(rng, cfg0, maxlen=6)]))
+        nnm.retarget(obj, cfg)
+        return obj
+    except Exception:  # noqa
+        return None
+
+
 def wor_oracle(rng, cfg, pop):
     """all orderings of pop; returns (violation or None, number of test runs)"""
     N = len(pop)
+    obj = reused_instance(rng, cfg)
     counts = {}
     for perm in itertools.permutations(pop):
         counts[perm] = counts.get(perm, 0) + 1
@@ -71,7 +91,7 @@ def wor_oracle(rng, cfg, pop):
     ps = []
     runs = 0
     for perm, mult in counts.items():
-        p = min_p(cfg, perm)
+        p = min_p(cfg, perm, obj)
         runs += 1
         if p is None:
             return None, runs     # exceptions are C11's business
